@@ -7,6 +7,7 @@
   data, so every schedule is covered at the model level.
 -/
 import StatsCI.Lemmas.KahanAccum
+import StatsCI.Lemmas.KahanProg
 
 namespace StatsCI.C09
 open StatsCI KahanLemmas
@@ -72,6 +73,99 @@ example : (Prog.merge (Prog.append (Prog.append Prog.empty (1 : ℝ)) 2)
   simp only [Prog.data, List.nil_append, List.cons_append]
   exact List.perm_append_comm (l₁ := [1, 2]) (l₂ := [3, 4])
 
+/-! ### 3. Rounded arithmetic: any two histories of the same multiset are close -/
+
+section rounded
+variable {fl : ℝ → ℝ} {u : ℝ}
+
+/-- **Rounded, general budgets.** For admissible `fl`, two histories delivering permutations of
+    the same data and satisfying the node-wise side condition of C08 have `sum.value()` within the
+    sum of their C08 bounds `Eb + 8u·Tb`. -/
+theorem rounded (hu : 0 ≤ u) (hu' : u ≤ 1 / 64) (hfl : ∀ x, |fl x - x| ≤ u * |x|)
+    (p q : Prog ℝ) (h : p.data.Perm q.data) (hp : Ok u p) (hq : Ok u q) :
+    |((p.map inj).evalA : Arith (RR fl)).sum.value.val
+        - ((q.map inj).evalA : Arith (RR fl)).sum.value.val|
+      ≤ (Eb u p + 8 * u * Tb u p) + (Eb u q + 8 * u * Tb u q) := by
+  rw [(evalA_fields _).1, (evalA_fields _).1]
+  have h1 := prog_value hu hu' hfl p hp
+  have h2 := prog_value hu hu' hfl q hq
+  rw [← h.sum_eq] at h2
+  have := abs_sub_le ((p.map inj).evalK : Kahan (RR fl)).value.val p.data.sum
+    ((q.map inj).evalK : Kahan (RR fl)).value.val
+  rw [abs_sub_comm p.data.sum] at this
+  linarith
+
+/-- **Rounded, closed form.** With `steps·u ≤ 1` and `(rdepth + 1)·u ≤ 1/128` for both
+    histories, the two `sum.value()` differ by at most
+    `((24 + 10·(rdepth p + rdepth q))·u + 12·(steps p + steps q)·u²)·Σ|x|`. -/
+theorem rounded_closed (hu : 0 ≤ u) (hfl : ∀ x, |fl x - x| ≤ u * |x|)
+    (p q : Prog ℝ) (h : p.data.Perm q.data)
+    (hnp : (p.steps : ℝ) * u ≤ 1) (hdp : ((p.rdepth : ℝ) + 1) * u ≤ 1 / 128)
+    (hnq : (q.steps : ℝ) * u ≤ 1) (hdq : ((q.rdepth : ℝ) + 1) * u ≤ 1 / 128) :
+    |((p.map inj).evalA : Arith (RR fl)).sum.value.val
+        - ((q.map inj).evalA : Arith (RR fl)).sum.value.val|
+      ≤ ((24 + 10 * (p.rdepth + q.rdepth)) * u + 12 * (p.steps + q.steps) * u ^ 2)
+          * (p.data.map abs).sum := by
+  rw [(evalA_fields _).1, (evalA_fields _).1]
+  have hu' : u ≤ 1 / 64 := by
+    have : 0 ≤ (p.rdepth : ℝ) * u := mul_nonneg (Nat.cast_nonneg _) hu
+    linarith
+  have h1 := prog_value_closed hu hu' hfl p (eps_small hu _ _ hnp hdp)
+  have h2 := prog_value_closed hu hu' hfl q (eps_small hu _ _ hnq hdq)
+  rw [← h.sum_eq, ← sumAbs_perm h] at h2
+  have := abs_sub_le ((p.map inj).evalK : Kahan (RR fl)).value.val p.data.sum
+    ((q.map inj).evalK : Kahan (RR fl)).value.val
+  rw [abs_sub_comm p.data.sum] at this
+  have e : (p.data.map abs).sum = sumAbs p.data := rfl
+  rw [e]
+  linarith
+
+/-- **Rounded, sum of squares.** The `sum_sq` register accumulates the *rounded* squares
+    `fl (x·x)`; two histories of the same multiset differ in `sum_sq.value()` by at most the same
+    closed-form factor times `Σ |fl (x·x)|`. -/
+theorem rounded_closed_sumSq (hu : 0 ≤ u) (hfl : ∀ x, |fl x - x| ≤ u * |x|)
+    (p q : Prog ℝ) (h : p.data.Perm q.data)
+    (hnp : (p.steps : ℝ) * u ≤ 1) (hdp : ((p.rdepth : ℝ) + 1) * u ≤ 1 / 128)
+    (hnq : (q.steps : ℝ) * u ≤ 1) (hdq : ((q.rdepth : ℝ) + 1) * u ≤ 1 / 128) :
+    |((p.map inj).evalA : Arith (RR fl)).sumSq.value.val
+        - ((q.map inj).evalA : Arith (RR fl)).sumSq.value.val|
+      ≤ ((24 + 10 * (p.rdepth + q.rdepth)) * u + 12 * (p.steps + q.steps) * u ^ 2)
+          * (p.data.map fun x => |fl (x * x)|).sum := by
+  have key : ∀ r : Prog ℝ, ((r.map inj).evalA : Arith (RR fl)).sumSq
+      = ((r.map fun x => fl (x * x)).map inj).evalA.sum := by
+    intro r
+    rw [(evalA_fields _).2.1, (evalA_fields _).1, map_map, map_map]
+    rfl
+  rw [key p, key q]
+  have h' : (p.map fun x => fl (x * x)).data.Perm (q.map fun x => fl (x * x)).data := by
+    rw [data_map, data_map]; exact h.map _
+  have := rounded_closed hu hfl (p.map fun x => fl (x * x)) (q.map fun x => fl (x * x)) h'
+    (by rwa [steps_map]) (by rwa [rdepth_map]) (by rwa [steps_map]) (by rwa [rdepth_map])
+  simpa [steps_map, rdepth_map, data_map, List.map_map, Function.comp_def] using this
+
+/-- non-vacuity: two different merge trees over two arrangements of the same four numbers -/
+example : let p : Prog ℝ := .merge (.extend .empty [1, -2]) (.extend .empty [3, 4])
+    let q : Prog ℝ := .append (.merge (.extend .empty [3, 4]) (.append .empty 1)) (-2)
+    p.data.Perm q.data ∧ (p.steps : ℝ) * (1 / 1024) ≤ 1 ∧
+    ((p.rdepth : ℝ) + 1) * (1 / 1024) ≤ 1 / 128 ∧ (q.steps : ℝ) * (1 / 1024) ≤ 1 ∧
+    ((q.rdepth : ℝ) + 1) * (1 / 1024) ≤ 1 / 128 := by
+  refine ⟨?_, by norm_num [Prog.steps], by norm_num [Prog.rdepth], by norm_num [Prog.steps],
+    by norm_num [Prog.rdepth]⟩
+  simp only [Prog.data, List.nil_append, List.cons_append]
+  exact List.perm_append_comm (l₁ := [1, -2]) (l₂ := [3, 4])
+
+/-- non-vacuity of `rounded`: both histories satisfy the node-wise side condition at `u = 2⁻¹⁰`
+    (admissible pairs `(fl, u)` with `fl ≠ id` are exhibited in `Properties/C08.lean`) -/
+example : Ok (1 / 1024) (.merge (.extend .empty [1, -2]) (.extend .empty [3, 4]) : Prog ℝ) ∧
+    Ok (1 / 1024) (.append (.merge (.extend .empty [3, 4]) (.append .empty 1)) (-2) : Prog ℝ) := by
+  constructor
+  · refine (budget_closed (by norm_num) (by norm_num) _ ?_).1
+    norm_num [eps, Prog.steps, Prog.rdepth]
+  · refine (budget_closed (by norm_num) (by norm_num) _ ?_).1
+    norm_num [eps, Prog.steps, Prog.rdepth]
+
+end rounded
+
 /-! ### 4. Count-like states are component-wise sums -/
 
 open Proportion in
@@ -105,5 +199,74 @@ theorem stats_merge_empty_left (a : Stats) : Stats.empty.merge a = a := by
     observations. -/
 theorem evalCount_eq (p : Prog Unit) : p.evalCount = p.data.length :=
   KahanLemmas.evalCount_eq p
+
+/-! ### 5. The empty state is neutral (exactly for counts and at `fl = id`; up to rounding otherwise) -/
+
+/-- **Neutral, count.** Merging with the empty `Arithmetic` state on either side leaves `count`
+    unchanged (any carrier). -/
+theorem neutral_count {α : Type} [Scalar α] (a : Arith α) :
+    (a.merge Arith.empty).count = a.count ∧ (Arith.empty.merge a).count = a.count :=
+  arith_merge_empty_count a
+
+/-- **Neutral, exact arithmetic, registers.** At `fl = id` the empty register is left-neutral for
+    the value of *every* register; merged on the right it yields `sum − comp`, which is the value
+    `sum + comp` exactly when the compensation is `0`. -/
+theorem neutral_exact_register (k : Kahan Rex) :
+    ((Kahan.empty : Kahan Rex).merge k).value.val = k.value.val ∧
+    (k.merge Kahan.empty).value.val = k.sum.val - k.comp.val ∧
+    (k.comp.val = 0 → (k.merge Kahan.empty).value.val = k.value.val) := by
+  obtain ⟨h1, h2⟩ := merge_empty_exact k
+  refine ⟨h1, h2, fun hc => ?_⟩
+  rw [h2, value_val, hc]; simp
+
+/-- **Neutral, exact arithmetic, reachable states.** At `fl = id`, merging the state reached by
+    any history with the empty state, on either side, leaves `sum.value()`, `sum_sq.value()` and
+    `count` unchanged. -/
+theorem neutral_exact (p : Prog ℝ) :
+    let a : Arith Rex := (p.map inj).evalA
+    ((a.merge Arith.empty).sum.value = a.sum.value ∧
+     (a.merge Arith.empty).sumSq.value = a.sumSq.value ∧
+     (a.merge Arith.empty).count = a.count) ∧
+    ((Arith.empty.merge a).sum.value = a.sum.value ∧
+     (Arith.empty.merge a).sumSq.value = a.sumSq.value ∧
+     (Arith.empty.merge a).count = a.count) := by
+  intro a
+  obtain ⟨_, _, _, c1, c2⟩ := evalA_exact p
+  obtain ⟨l1, _, r1⟩ := neutral_exact_register a.sum
+  obtain ⟨l2, _, r2⟩ := neutral_exact_register a.sumSq
+  obtain ⟨n1, n2⟩ := arith_merge_empty_count a
+  exact ⟨⟨RR.ext' (r1 c1), RR.ext' (r2 c2), n1⟩, ⟨RR.ext' l1, RR.ext' l2, n2⟩⟩
+
+/-- for an *unreachable* register with non-zero compensation the empty register is **not**
+    right-neutral even in exact arithmetic (value `1 + 1 = 2` becomes `1 − 1 = 0`): `+=` adds
+    `+rhs.compensation` and `value()` is `sum + compensation`, while `kahan_add` maintains
+    `sum − compensation` -/
+example : ¬ ∀ k : Kahan Rex, (k.merge Kahan.empty).value = k.value := by
+  intro h
+  have h1 := congrArg RR.val (h ⟨⟨1⟩, ⟨1⟩⟩)
+  rw [(neutral_exact_register _).2.1, value_val] at h1
+  norm_num at h1
+
+/-- **Neutral, arbitrary rounding.** `k += KahanSum::default()` is exactly two model steps fed
+    with `0` (the register is re-normalised: `s ← fl (s + fl (0 − c))`, …), and `value()` moves by
+    at most `2|c| + 5u|s| + 7u|c|`. -/
+theorem neutral_rounded {fl : ℝ → ℝ} {u : ℝ} (hu : 0 ≤ u) (hu' : u ≤ 1 / 64)
+    (hfl : ∀ x, |fl x - x| ≤ u * |x|) (k : Kahan (RR fl)) :
+    k.merge Kahan.empty = (k.add NumOps.zero).add NumOps.zero ∧
+    (k.add NumOps.zero).sum.val = fl (k.sum.val + fl (0 - k.comp.val)) ∧
+    (k.add NumOps.zero).comp.val
+      = fl (fl (fl (k.sum.val + fl (0 - k.comp.val)) - k.sum.val) - fl (0 - k.comp.val)) ∧
+    |(k.merge Kahan.empty).value.val - k.value.val|
+      ≤ 2 * |k.comp.val| + 5 * (u * |k.sum.val|) + 7 * (u * |k.comp.val|) :=
+  ⟨rfl, rfl, rfl, merge_empty_value hu hu' hfl k⟩
+
+/-- the same for both registers of an `Arithmetic` state -/
+theorem neutral_rounded_arith {fl : ℝ → ℝ} {u : ℝ} (hu : 0 ≤ u) (hu' : u ≤ 1 / 64)
+    (hfl : ∀ x, |fl x - x| ≤ u * |x|) (a : Arith (RR fl)) :
+    |(a.merge Arith.empty).sum.value.val - a.sum.value.val|
+      ≤ 2 * |a.sum.comp.val| + 5 * (u * |a.sum.sum.val|) + 7 * (u * |a.sum.comp.val|) ∧
+    |(a.merge Arith.empty).sumSq.value.val - a.sumSq.value.val|
+      ≤ 2 * |a.sumSq.comp.val| + 5 * (u * |a.sumSq.sum.val|) + 7 * (u * |a.sumSq.comp.val|) :=
+  ⟨merge_empty_value hu hu' hfl a.sum, merge_empty_value hu hu' hfl a.sumSq⟩
 
 end StatsCI.C09
